@@ -808,16 +808,21 @@ func ruleR05j(h *H) {
 	n := 0
 	for _, fn := range h.P.ImplMethods("coordinator/metadata", "Provider", "Store") {
 		writesFile := false
-		ir.Instrs(fn, func(in ssa.Instruction) {
-			if c := ir.CallOf(in); c != nil {
-				if f := c.StaticCallee(); f != nil && f.Pkg != nil && f.Pkg.Pkg.Path() == "os" && (f.Name() == "WriteFile" || f.Name() == "Rename" || f.Name() == "OpenFile" || f.Name() == "Create") {
-					writesFile = true
+		region := helperFuncs(fn)
+		for _, g := range region {
+			ir.Instrs(g, func(in ssa.Instruction) {
+				if c := ir.CallOf(in); c != nil {
+					if f := c.StaticCallee(); f != nil && f.Pkg != nil && f.Pkg.Pkg.Path() == "os" && (f.Name() == "WriteFile" || f.Name() == "Rename" || f.Name() == "OpenFile" || f.Name() == "Create") {
+						writesFile = true
+					}
 				}
-			}
-		})
+			})
+		}
 		if !writesFile {
 			continue
 		}
+		restore := bindRegion(fn)
+		defer restore()
 		var expected *ssa.Parameter
 		for _, p := range fn.Params {
 			if ir.TypeIs(p.Type(), "coordinator/metadata", "Version") {
@@ -843,44 +848,46 @@ func ruleR05j(h *H) {
 			}
 			return false
 		}
-		ir.Instrs(fn, func(in ssa.Instruction) {
-			bo, ok := in.(*ssa.BinOp)
-			if !ok || (bo.Op != token.EQL && bo.Op != token.NEQ) {
-				return
-			}
-			var other ssa.Value
-			switch {
-			case ir.Canon(bo.X) == ssa.Value(expected):
-				other = bo.Y
-			case ir.Canon(bo.Y) == ssa.Value(expected):
-				other = bo.X
-			default:
-				return
-			}
-			if _, isConst := ir.Canon(other).(*ssa.Const); isConst {
-				return
-			}
-			n++
-			// every value the operand can take has to come from the read
-			var allFresh func(v ssa.Value, depth int) bool
-			allFresh = func(v ssa.Value, depth int) bool {
-				c := ir.Canon(v)
-				if phi, isPhi := c.(*ssa.Phi); isPhi && depth < 6 {
-					for _, e := range phi.Edges {
-						if e != ssa.Value(phi) && !allFresh(e, depth+1) {
-							return false
+		for _, g := range region {
+			ir.Instrs(g, func(in ssa.Instruction) {
+				bo, ok := in.(*ssa.BinOp)
+				if !ok || (bo.Op != token.EQL && bo.Op != token.NEQ) {
+					return
+				}
+				var other ssa.Value
+				switch {
+				case ir.Canon(bo.X) == ssa.Value(expected):
+					other = bo.Y
+				case ir.Canon(bo.Y) == ssa.Value(expected):
+					other = bo.X
+				default:
+					return
+				}
+				if _, isConst := ir.Canon(other).(*ssa.Const); isConst {
+					return
+				}
+				n++
+				// every value the operand can take has to come from the read
+				var allFresh func(v ssa.Value, depth int) bool
+				allFresh = func(v ssa.Value, depth int) bool {
+					c := ir.Canon(v)
+					if phi, isPhi := c.(*ssa.Phi); isPhi && depth < 6 {
+						for _, e := range phi.Edges {
+							if e != ssa.Value(phi) && !allFresh(e, depth+1) {
+								return false
+							}
 						}
+						return true
 					}
-					return true
+					if _, isField := ir.FieldLoadOf(c); isField {
+						return false
+					}
+					return ir.DependsOn(c, isRead)
 				}
-				if _, isField := ir.FieldLoadOf(c); isField {
-					return false
-				}
-				return ir.DependsOn(c, isRead)
-			}
-			fresh := allFresh(other, 0)
-			h.Verdict(fresh, rule, fmt.Sprintf("version check #%d in %s", n, ir.FuncName(fn)), h.pos(in), "against the version read from the file in this call", "the expected version is compared with "+ir.Describe(other)+", not with the version read from the file in this call: a second coordinator process on the same file is no longer fenced off and can overwrite a newer status (a term that was already issued is rolled back and then issued again)")
-		})
+				fresh := allFresh(other, 0)
+				h.Verdict(fresh, rule, fmt.Sprintf("version check #%d in %s", n, ir.FuncName(fn)), h.pos(in), "against the version read from the file in this call", "the expected version is compared with "+ir.Describe(other)+", not with the version read from the file in this call: a second coordinator process on the same file is no longer fenced off and can overwrite a newer status (a term that was already issued is rolled back and then issued again)")
+			})
+		}
 	}
 	if n == 0 {
 		h.Anchor(rule, "the expected-version comparison in the file-backed metadata.Provider.Store")
